@@ -30,10 +30,10 @@ ASSUMPTIONS = [
     "not to a fixpoint unless the state set stops growing (reported as exhaustive_cases)",
     "variables without initial value start from the symbolic value <name>0, represented by an arbitrary rational",
 ]
-TIMEOUT = {"quick": 20, "thorough": 90}
-DEADLINE = {"quick": 65, "thorough": 1200}
+TIMEOUT = {"quick": 15, "thorough": 90}
+DEADLINE = {"quick": 75, "thorough": 1200}
 MIN_DECIDING = {"quick": 60, "thorough": 600}
-NCASES = {"quick": 400, "thorough": 9000}
+NCASES = {"quick": 240, "thorough": 9000}
 
 
 def generate(seed, tier):
